@@ -164,6 +164,8 @@ def scalarNode (tname : String) (isEnum isSpecified : Bool) (v : J) (numStr : Bo
                 (if minInt < n && n < maxInt then some (.int n) else some (.float (showInt n)))
               else some (.float (showInt n))
   | .obj [("$float", .str r)] =>
+      -- nan / inf / -inf have no literal spelling (fix I16: ValueError)
+      if r == "inf" || r == "-inf" || r == "nan" then none else
       if tname == "Float" then
         match floatIntText r.toList with
         | some t => if minInt < parseIntText t && parseIntText t < maxInt then some (.int (parseIntText t)) else some (.float r.toList)
@@ -461,6 +463,9 @@ def baseIsKind (s : SchemaD) (t : Ty) (k : Kind) : Bool :=
   match s.findType t.base with
   | some td => td.kind == k
   | none => false
+
+/-- `unwrap_type(t) in (<library scalars>)` -/
+def baseIsOneOf (t : Ty) (names : List String) : Bool := names.contains t.base
 
 /-- `"".join(TABLE.get(c, c) for c in cs)` -/
 def escapeWith (tbl : List (Char × Chars)) (cs : Chars) : Chars :=
